@@ -242,7 +242,7 @@ def body_parse(case, acc):
             acc.case({"stream": sh, "j": j, "frames": len(ends)}, len(ends) >= 3 and not last, ["stall_after_interior_frame" if not last else "stall_at_end"])
         for integ in ["generic"] + (["rdflib"] if rdflib_ok else []):
             want = scen.norm_any(want_events if integ == "generic" else
-                                 [e if e[0] == "prefix" else [T.rdflib_canon(t) for t in e] for e in want_events])
+                                 want_events)
             for wrap in ("raw", "buffered"):
                 raw = iosim.DribbleRaw(data, case["schedule"], limit=end, stall=not last)
                 source = raw if wrap == "raw" else io.BufferedReader(raw)
